@@ -42,5 +42,193 @@ def test_clang():
             n += 1
     print('clang: %d translation units parse with zero errors under the stub headers' % n)
 
+
+GSA_DEMO = '''
+class A(object):
+    def f1(self, node, block):
+        if block is None:
+            return
+        if not node.x:
+            return
+        node.skip = True
+        if block.a and not block.b:
+            node.kind = 'k'
+
+    def g1(self, node, block):
+        if block is not None and node.x:
+            node.skip = True
+            if not (not block.a or block.b):
+                node.kind = 'k'
+
+    def f2(self, node, block):
+        v = block.get('A')
+        node.a = v[0] if v else None
+        w = block.get('B')
+        node.b = w[0] if w else None
+
+    def _first(self, block, key):
+        r = block.get(key)
+        if r:
+            return r[0]
+        return None
+
+    def g2(self, node, block):
+        for key, attr in (('A', 'a'), ('B', 'b')):
+            setattr(node, attr, self._first(block, key))
+
+    def f3(self, libs):
+        pats = {}
+        for l in libs:
+            if not isfile(l):
+                pats[l] = pat(l)
+        return pats
+
+    def g3(self, libs):
+        pats = {l: pat(l) for l in libs if not isfile(l)}
+        return pats
+
+    def f4(self, out, sink):
+        for line in out.splitlines():
+            if line.endswith(':'):
+                continue
+            for word in line.split():
+                sink.add(word)
+
+    def _words(self, out):
+        for line in out.splitlines():
+            if line.endswith(':'):
+                continue
+            yield from line.split()
+
+    def g4(self, out, sink):
+        for word in self._words(out):
+            sink.add(word)
+
+    def h1(self, node, block):
+        if block is not None and node.x:
+            node.skip = True
+            if block.a or not block.b:
+                node.kind = 'k'
+'''
+
+
+def test_gsa():
+    """behaviour-preserving rewrites give equivalent summaries; a changed condition does not"""
+    import tempfile, shutil
+    from gilint.core import Context
+    from gilint import gsa
+    root = tempfile.mkdtemp(prefix='gsa-selftest-')
+    try:
+        os.makedirs(os.path.join(root, 'giscanner'))
+        open(os.path.join(root, 'giscanner', 'demo.py'), 'w').write(GSA_DEMO)
+        ctx = Context('C00', root, 'quick')
+
+        def effs(q, kinds):
+            S = gsa.Summary(ctx.py, 'demo', 'A.' + q)
+            out = {}
+            for e in S.effects:
+                if e.kind in kinds:
+                    k = (e.kind, re.sub(r'__g\d+', '', e.target), re.sub(r'__g\d+', '', e.value))
+                    out[k] = gsa.disj(out.get(k, False), e.cond)
+            return out
+
+        def norm(c):
+            # loop atoms carry a running number and generated names: compare modulo those
+            return re.sub(r'#\d+', '#', re.sub(r'__g\d+', '', gsa.show(c)))
+        n = 0
+        for a, b, kinds in (('f1', 'g1', ('store',)), ('f2', 'g2', ('store',)), ('f3', 'g3', ('store',)), ('f4', 'g4', ('call',))):
+            ea, eb = effs(a, kinds), effs(b, kinds)
+            if kinds == ('call',):
+                ea = dict((k, v) for k, v in ea.items() if k[1].endswith('.add'))
+                eb = dict((k, v) for k, v in eb.items() if k[1].endswith('.add'))
+            assert set(ea) == set(eb), (a, b, sorted(ea), sorted(eb))
+            for k in ea:
+                assert gsa.equiv(ea[k], eb[k]) or norm(ea[k]) == norm(eb[k]), (a, b, k, gsa.show(ea[k]), gsa.show(eb[k]))
+                n += 1
+        e1, e3 = effs('f1', ('store',)), effs('h1', ('store',))
+        k = ('store', 'node.kind', "'k'")
+        assert k in e1 and k in e3 and not gsa.equiv(e1[k], e3[k]), 'a changed condition must not be equivalent'
+        print('gsa: %d effects of 4 refactoring pairs have equivalent conditions; 1 changed condition is told apart' % n)
+    finally:
+        shutil.rmtree(root, ignore_errors=True)
+
+
+def test_strfrag():
+    import ast as _ast
+    from gilint import strfrag
+    a = strfrag.merge_consts(strfrag.sequences(strfrag.flatten(_ast.parse("'<' + name + ' x=\"%s\"' % v + '>'", mode='eval').body))[0])
+    b = strfrag.merge_consts(strfrag.sequences(strfrag.flatten(_ast.parse("f'<{name} x=\"{v}\">'", mode='eval').body))[0])
+    assert strfrag.show(a) == strfrag.show(b), (strfrag.show(a), strfrag.show(b))
+    print('strfrag: +/%%-format and f-string spellings of one string have the same shape: %s' % strfrag.show(a))
+
+
+CGSA_DEMO = '''
+typedef struct { int type; int flag; int value; } N;
+enum { K_A = 1, K_B = 2 };
+static int helper (N *n) { return n->flag && n->value > 3; }
+int f1 (N *n, int *out)
+{
+  int r = 0;
+  if (n == 0)
+    goto done;
+  if (n->type == K_A)
+    r = 10;
+  else if (n->type == K_B)
+    {
+      if (n->flag && n->value > 3)
+        r = 20;
+    }
+ done:
+  *out = r;
+  return r != 0;
+}
+int g1 (N *node, int *out)
+{
+  int result = 0;
+  if (node != 0)
+    {
+      switch (node->type)
+        {
+        case K_A:
+          result = 10;
+          break;
+        case K_B:
+          if (helper (node))
+            result = 20;
+          break;
+        default:
+          break;
+        }
+    }
+  *out = result;
+  return result != 0;
+}
+'''
+
+
+def test_cgsa():
+    """goto/if-chain vs structured/switch/helper forms of one C function store the same values under equivalent conditions"""
+    import tempfile, shutil
+    from gilint.core import Context
+    from gilint import cgsa, gsa
+    root = tempfile.mkdtemp(prefix='cgsa-selftest-')
+    try:
+        os.makedirs(os.path.join(root, 'girepository'))
+        open(os.path.join(root, 'girepository', 'demo.c'), 'w').write(CGSA_DEMO)
+        ctx = Context('C00', root, 'quick')
+
+        def stores(fn, ren):
+            S = cgsa.CSummary(ctx.c.tu('girepository/demo.c'), fn)
+            out = {}
+            for e in S.effects:
+                if e.kind == 'store' and e.target.startswith('*'):
+                    out[e.value] = gsa.disj(out.get(e.value, False), e.cond)
+            return dict((v, re.sub(r'\b%s\b' % ren, 'n', gsa.show(c))) for v, c in out.items())
+        a, b = stores('f1', 'n'), stores('g1', 'node')
+        assert set(a) == set(b) == {'0', '10', '20'}, (a, b)
+        print('cgsa: out-parameter values %s found in both forms' % sorted(a))
+    finally:
+        shutil.rmtree(root, ignore_errors=True)
+
 if __name__ == '__main__':
-    test_rx(); test_clang()
+    test_rx(); test_clang(); test_gsa(); test_strfrag(); test_cgsa()
